@@ -242,7 +242,7 @@ def run_case(spec):
     from vf.realproc import run_with_watchdog
 
     try:
-        return run_with_watchdog(lambda: _run(spec), budget_s=180, what='manager call history', hang_retries=0, hang_is_violation=False)
+        return run_with_watchdog(lambda: _run(spec), budget_s=90, what='manager call history', hang_retries=0, hang_is_violation=False)
     except BaseException:
         _teardown()
         raise
